@@ -652,7 +652,7 @@ func (c *rcComp) Run(args []string) string {
 	if len(args) == 6 && args[0] == "new" && args[1] == "poll" {
 		return c.pollRun(args) // Close while Poll calls are in flight (rc_poll.go)
 	}
-	if len(args) == 3 && args[0] == "new" && args[1] == "pxr" {
+	if (len(args) == 3 || len(args) == 4) && args[0] == "new" && args[1] == "pxr" {
 		return c.pxrRun(args) // a Poll in flight across a second Subscribe, then Close (rc_pxr.go)
 	}
 	if len(args) == 4 && args[0] == "new" && args[1] == "gf" {
@@ -1176,7 +1176,7 @@ func (c *rcComp) Gen(r *rand.Rand, tier string) []string {
 		return rpGen(r) // Close while Poll calls are in flight (rc_poll.go)
 	}
 	if r.Intn(25) == 0 {
-		return []string{"new pxr " + strconv.Itoa(1+r.Intn(30)), "ret", "mon"} // rc_pxr.go
+		return []string{"new pxr " + strconv.Itoa(1+r.Intn(30)) + []string{"", " mid", " mid", " before", " none", " after"}[r.Intn(6)], "ret", "mon"} // rc_pxr.go
 	}
 	for {
 		mode := []string{"rb", "rb", "rb", "rc", "rc", "b", "c"}[r.Intn(7)]
@@ -1298,6 +1298,9 @@ func (c *rcComp) Exhaustive(tier string) [][]string {
 	out = append(out, rpExhaustive(tier)...) // Close while Poll calls are in flight (rc_poll.go)
 	for _, k := range []int{1, 2, 3, 6, 17} { // a Poll in flight across a second Subscribe, then Close (rc_pxr.go)
 		out = append(out, []string{"new pxr " + strconv.Itoa(k), "ret", "mon"})
+		for _, w := range []string{"mid", "before", "none", "after"} {
+			out = append(out, []string{"new pxr " + strconv.Itoa(k) + " " + w, "ret", "mon"})
+		}
 	}
 	return out
 }
